@@ -1269,3 +1269,93 @@ fn bor_cow_transparent3() {
     }
     kani::cover!(true);
 }
+
+// =====================================================================================================================
+// Third batch
+// =====================================================================================================================
+
+// ---- 1. tuple struct, array encoding, index gap, OPTIONAL field(s) after the gap: the array ends at the highest PRESENT
+// ----    index, gaps and absent optionals below it are NULL, nothing is written after it (`TGO(7, None)` = 81 07)
+// ---- 2. unit variants (not index_only) with a variant-level tag: `[n, tag <empty struct encoding>]`
+family! {
+    pub struct TGO(#[n(0)] u8, #[n(2)] Option<u8>);
+    pub struct TGO2(#[n(0)] u8, #[n(2)] Option<u8>, #[n(4)] Option<bool>);
+    pub enum ET { #[n(0)] #[cbor(tag(7))] Unit, #[n(1)] Other(#[n(0)] u8) }
+    #[cbor(map)] pub enum ETM { #[n(0)] #[cbor(tag(7))] Unit, #[n(1)] Other { #[n(0)] x: u8 } }
+}
+/// `Option<bool>` with a presence claim (1 present, 0 absent, AUTO computed), asserted: the niche layout of `Option<bool>`
+/// otherwise makes the presence symbolic on the decode side
+fn ob_c(idx: u32, x: &Option<bool>, claim: u8) -> F {
+    if claim == AUTO { return ob(idx, x) }
+    chk!((claim == 1) == x.is_some(), "reference encoder: claimed presence is the actual one");
+    if claim == 1 { fb(idx, *x == Some(true)) } else { absent(idx) }
+}
+fn ref_tgo<const N: usize>(o: &mut Out<N>, v: &TGO, h: &Hints, fr: Fr) {
+    o.structure(false, NOTAG, &[cls(h[0], fu(0, v.0 as u64)), cls(h[1], ou(2, &v.1))], fr)
+}
+fn ref_tgo2<const N: usize>(o: &mut Out<N>, v: &TGO2, h: &Hints, fr: Fr) {
+    o.structure(false, NOTAG, &[cls(h[0], fu(0, v.0 as u64)), cls(h[1], ou(2, &v.1)), ob_c(4, &v.2, h[4])], fr)
+}
+fn ref_et<const N: usize>(o: &mut Out<N>, v: &ET, h: &Hints, fr: Fr) {
+    match v {
+        ET::Unit => { o.enum_prefix(NOTAG, false, 0, fr); o.structure(false, 7, &[], fr) }
+        ET::Other(x) => { o.enum_prefix(NOTAG, false, 1, fr); o.structure(false, NOTAG, &[cls(h[0], fu(0, *x as u64))], fr) }
+    }
+}
+fn ref_etm<const N: usize>(o: &mut Out<N>, v: &ETM, h: &Hints, fr: Fr) {
+    match v {
+        ETM::Unit => { o.enum_prefix(NOTAG, false, 0, fr); o.structure(true, 7, &[], fr) }
+        ETM::Other { x } => { o.enum_prefix(NOTAG, false, 1, fr); o.structure(true, NOTAG, &[cls(h[0], fu(0, *x as u64))], fr) }
+    }
+}
+
+// @harness name=enc3_tgo props=C08,C07 kind=complete note="all values, both presence states; TGO(x, None) = 81 x"
+enc_harness!(enc3_tgo, TGO, 16, ref_tgo, |v| true, true, v.1.is_none());
+// @harness name=enc3_tgo2 props=C08,C07 kind=complete note="all values, all four presence combinations"
+enc_harness!(enc3_tgo2, TGO2, 16, ref_tgo2, |v| true, true, v.1.is_none() && v.2.is_some());
+// -- decode: TGO, masks {None, Some} x width classes
+// @harness name=dec3_tgo_1n props=C09 kind=complete
+dec_harness!(dec3_tgo_1n, TGO, ref_tgo, PREF, h2(1, AUTO), |h| TGO(u8c(h[0]), None));
+// @harness name=dec3_tgo_0n props=C09 kind=complete
+dec_harness!(dec3_tgo_0n, TGO, ref_tgo, PREF, h2(0, AUTO), |h| TGO(u8c(h[0]), None));
+// @harness name=dec3_tgo_11 props=C09 kind=complete
+dec_harness!(dec3_tgo_11, TGO, ref_tgo, PREF, h2(1, 1), |h| TGO(u8c(h[0]), Some(u8c(h[1]))));
+// @harness name=dec3_tgo_10 props=C09 kind=complete
+dec_harness!(dec3_tgo_10, TGO, ref_tgo, PREF, h2(1, 0), |h| TGO(u8c(h[0]), Some(u8c(h[1]))));
+// @harness name=dec3_tgo_w00 props=C09 kind=complete note="values < 24 with heads widened to one argument byte"
+dec_harness!(dec3_tgo_w00, TGO, ref_tgo, WIDE1, h2(0, 0), |h| TGO(u8c(h[0]), Some(u8c(h[1]))));
+// -- decode: TGO2, the four presence masks (n = None, s = Some)
+// @harness name=dec3_tgo2_nn props=C09 kind=complete
+dec_harness!(dec3_tgo2_nn, TGO2, ref_tgo2, PREF, [1, AUTO, AUTO, AUTO, 0, AUTO, AUTO, AUTO], |h| TGO2(u8c(h[0]), None, None));
+// @harness name=dec3_tgo2_sn props=C09 kind=complete
+dec_harness!(dec3_tgo2_sn, TGO2, ref_tgo2, PREF, [1, 1, AUTO, AUTO, 0, AUTO, AUTO, AUTO], |h| TGO2(u8c(h[0]), Some(u8c(h[1])), None));
+// @harness name=dec3_tgo2_ns props=C09 kind=complete note="82-form: 85 x f6 f6 f6 b - absent optional below the highest present index is NULL"
+dec_harness!(dec3_tgo2_ns, TGO2, ref_tgo2, PREF, [1, AUTO, AUTO, AUTO, 1, AUTO, AUTO, AUTO], |h| TGO2(u8c(h[0]), None, Some(kani::any())));
+// @harness name=dec3_tgo2_ss props=C09 kind=complete
+dec_harness!(dec3_tgo2_ss, TGO2, ref_tgo2, PREF, [1, 1, AUTO, AUTO, 1, AUTO, AUTO, AUTO], |h| TGO2(u8c(h[0]), Some(u8c(h[1])), Some(kani::any())));
+// @harness name=dec3_tgo2_w00s props=C09 kind=complete
+dec_harness!(dec3_tgo2_w00s, TGO2, ref_tgo2, WIDE1, [0, 0, AUTO, AUTO, 1, AUTO, AUTO, AUTO], |h| TGO2(u8c(h[0]), Some(u8c(h[1])), Some(kani::any())));
+
+// @harness name=enc3_et_arr props=C08,C07 kind=complete note="ET::Unit = 82 00 c7 80"
+enc_harness!(enc3_et_arr, ET, 16, ref_et, |v| true, true, matches!(v, ET::Unit));
+// @harness name=enc3_et_map props=C08,C07 kind=complete note="ETM::Unit = 82 00 c7 a0"
+enc_harness!(enc3_et_map, ETM, 16, ref_etm, |v| true, true, matches!(v, ETM::Unit));
+// @harness name=dec3_et_arr_unit props=C09 kind=complete
+dec_harness!(dec3_et_arr_unit, skip1, ET => ET, 24, ref_et, PREF, NOH, |h| ET::Unit, |v| v);
+// @harness name=dec3_et_arr_other1 props=C09 kind=complete
+dec_harness!(dec3_et_arr_other1, skip1, ET => ET, 24, ref_et, PREF, h1(1), |h| ET::Other(u8c(h[0])), |v| v);
+// @harness name=dec3_et_map_unit props=C09 kind=complete
+dec_harness!(dec3_et_map_unit, skip1, ETM => ETM, 24, ref_etm, PREF, NOH, |h| ETM::Unit, |v| v);
+// @harness name=dec3_et_map_other1 props=C09 kind=complete
+dec_harness!(dec3_et_map_other1, skip1, ETM => ETM, 24, ref_etm, PREF, h1(1), |h| ETM::Other { x: u8c(h[0]) }, |v| v);
+// -- wrong / missing tag of a unit variant is an error, never papered over
+// @harness name=err3_et_arr_wrong_tag8 props=C09 kind=complete note="82 00 c8 80"
+err_harness!(err3_et_arr_wrong_tag8, ET, 4, [0x82, 0x00, 0xc8, 0x80], |e| e.is_tag_mismatch());
+// @harness name=err3_et_arr_wrong_tag_any props=C09 kind=complete note="82 00 d8 t 80 for every t != 7"
+err_harness!(err3_et_arr_wrong_tag_any, ET, 5, [0x82, 0x00, 0xd8, { let t: u8 = kani::any(); kani::assume(t != 7); t }, 0x80], |e| e.is_tag_mismatch());
+// @harness name=err3_et_arr_missing_tag props=C09 kind=complete note="82 00 80"
+err_harness!(err3_et_arr_missing_tag, ET, 3, [0x82, 0x00, 0x80], |e| e.is_type_mismatch());
+// @harness name=err3_et_map_wrong_tag8 props=C09 kind=complete note="82 00 c8 a0"
+err_harness!(err3_et_map_wrong_tag8, ETM, 4, [0x82, 0x00, 0xc8, 0xa0], |e| e.is_tag_mismatch());
+// @harness name=err3_et_map_missing_tag props=C09 kind=complete note="82 00 a0"
+err_harness!(err3_et_map_missing_tag, ETM, 3, [0x82, 0x00, 0xa0], |e| e.is_type_mismatch());
